@@ -573,6 +573,7 @@ func runC06(c Case) (res evid.Result) {
 	for i, op := range c.Ops {
 		m.apply(op)
 		applyOp(op)
+		synctest.Wait() // a timer that is due now (an expiry, if the table has such a thing) has run
 		for _, at := range m.expAt {
 			periods = true
 			if m.now >= at {
